@@ -384,3 +384,48 @@ def run_jobs(jobs, workroot, nproc=None, keep=False, progress=None):
             if progress:
                 progress(done, len(jobs), results[i])
     return results
+
+
+def static_scan(workroot):
+    """Supporting static fact for C16: DFCC exempts function-local statics from the frame
+    check, so the goto symbol table of every library translation unit is scanned: every
+    object with static lifetime must be const-qualified.  Returns (examined, offenders, errors)."""
+    examined, offenders, errors = [], [], []
+    srcroot = os.path.join(REPO, 'src')
+    wd = os.path.join(workroot, 'static_scan')
+    os.makedirs(wd, exist_ok=True)
+    files = []
+    for root, _, fs in os.walk(srcroot):
+        for f in sorted(fs):
+            if f.endswith('.c'):
+                files.append(os.path.join(root, f))
+    if not files:
+        errors.append('no library sources found under %s' % srcroot)
+    for i, cf in enumerate(sorted(files)):
+        gb = os.path.join(wd, 'tu%d.gb' % i)
+        log = []
+        rc, out, err = _run(['goto-cc', '-std=gnu99', '-c', '-I' + os.path.join(REPO, 'include'), cf, '-o', gb], wd, 120, log)
+        if rc != 0:
+            errors.append('goto-cc failed on %s: %s' % (cf, err[-300:]))
+            continue
+        rc, out, err = _run(['goto-instrument', '--show-symbol-table', gb], wd, 120, log)
+        if rc != 0:
+            errors.append('symbol table of %s unavailable' % cf)
+            continue
+        for blk in out.split('\n\n'):
+            m = re.search(r'^Symbol\.*: (\S+)$', blk, re.M)
+            t = re.search(r'^Type\.*: (.*)$', blk, re.M)
+            fl = re.search(r'^Flags\.*: (.*)$', blk, re.M)
+            loc = re.search(r'^Location\.*: (.*)$', blk, re.M)
+            if not (m and t and fl):
+                continue
+            name, ty, flags = m.group(1), t.group(1), fl.group(1)
+            if 'static_lifetime' not in flags or 'lvalue' not in flags:
+                continue
+            if name.startswith('__CPROVER') or '/repo' not in (loc.group(1) if loc else '') and REPO not in (loc.group(1) if loc else ''):
+                continue
+            rel = os.path.relpath(cf, REPO)
+            examined.append('%s:%s' % (rel, name))
+            if not ty.startswith('const '):
+                offenders.append({'file': rel, 'symbol': name, 'type': ty, 'location': loc.group(1) if loc else ''})
+    return examined, offenders, errors
